@@ -47,8 +47,12 @@ def main():
             patch = ported if os.path.exists(ported) else os.path.join(d, "patch.diff")
             r = sh(["git", "-C", WT, "apply", patch])
             if r.returncode != 0:
-                sh(["git", "-C", WT, "checkout", "-q", "--force", PINNED])
-                base = PINNED
+                try:
+                    fallback = json.load(open(os.path.join(d, "meta.json"))).get("base_commit") or PINNED
+                except Exception:  # noqa
+                    fallback = PINNED
+                sh(["git", "-C", WT, "checkout", "-q", "--force", fallback])
+                base = fallback
                 r = sh(["git", "-C", WT, "apply", os.path.join(d, "patch.diff")])
                 if r.returncode != 0:
                     results[seed] = {"error": "patch does not apply: " + r.stderr[:200]}
